@@ -9,6 +9,21 @@ sys.path.insert(0, "/verif")
 PY = "/venv/bin/python"
 
 CLAIMS = {
+    "C03": dict(
+        technique="derived-table maintenance rules (pairing of every writer of the function with the corrections of the tables defined from it; affine sign/index checks)",
+        design="DESIGN.md section 4 (C03), engine F",
+        text="Static analysis of necessary structural clauses of the incremental table method, not of its result: the tables kept "
+             "next to the function f (shifts = child value + shift - parent value; rules pumping / using a class; the value "
+             "histogram) are defined from f and the inserted rules, and for every writer of f the matching correction of each table "
+             "is present with the right sign, position and finiteness guard; every inserted key is recorded (a skip only for a key "
+             "already present as a whole), registered for its parent and each finite child with its own position, and queued; a rule "
+             "fires only when every shift is positive or infinite; a value above the gap is held back, released when the gap's right "
+             "end grows (tested against the old gap), and declared infinite only after the queue is drained; the gap size is the "
+             "largest |shift| of the rules' own shifts and only grows; the readers ask `f(label) is None`. Does NOT decide the gap "
+             "argument itself (that the frozen values are exactly the classes that pump) nor preimage_gap's search.",
+        note="Trusted: ast, the control model, the frozen description of the derived tables (engine docstring). A rearrangement of "
+             "TableMethod the rules do not recognise ends in ANALYSIS-ERROR, not in a verdict.",
+    ),
     "C04": dict(
         technique="ast provenance/alignment data-flow + who-may-record call-site rule",
         design="DESIGN.md section 4 (C04), engines P,T",
@@ -158,8 +173,6 @@ NOT_APPLICABLE = {
            "no sound static argument bounds those values; its structural necessary conditions are claimed under C04/C07/C09/C10.",
     "C02": "Closure/productivity are facts about the rule set a particular search produced (reachability and a fixed point "
            "over runtime data); no all-paths code shape decides them. The one structural hazard (extractor root) is decided under C13.",
-    "C03": "Correctness of an incremental fixed-point algorithm over all insertion histories is a claim about reachable states "
-           "of TableMethod, not code shape; candidate shape rules are either not necessary or already killed by tests.",
     "C12": "Object-level equalities through recursive parse-tree walks and a backtracking matcher are value-level; the only "
            "shape facts are exercised by every existing bijection test.",
 }
